@@ -15,7 +15,7 @@ import (
 // end the recording in progress with a stop, and processing resumes with the next frame.
 
 func vfGenC13(t *rapid.T) vfRecCase {
-	o := vfRecGenOpt{bad: true, reset: true, test: true, maxEv: 260, cont: 1, variants: true}
+	o := vfRecGenOpt{bad: true, reset: true, test: true, maxEv: 260, cont: 1, variants: true, scale: true}
 	c := vfRecCase{Cfg: vfGenRecCfg(t, o)}
 	c.Ev = vfGenEvents(t, c.Cfg, o)
 	// plant bad frames at chosen positions relative to triggers: inside motion runs, right after them
